@@ -96,6 +96,10 @@ var builtinFunctions = map[XmlName]Function{
 }
 
 func last(context Context, args ...Result) (Result, error) {
+	if c, ok := context.(*exprContext); ok {
+		return Number(c.contextSize), nil
+	}
+
 	nodeSet, ok := context.Result().(NodeSet)
 
 	if !ok {
